@@ -27,7 +27,7 @@ import (
 //		simVal1_1 := x
 //		simRecv1_0 := simrt.ZeroOf(simCh1_0)
 //		simOK1_0 := false
-//		switch simrt.Select(SITE, hasDefault,
+//		switch simrt.Select(SITE, block /* a blocking select over the same cases, nil if there is a default */,
 //			func() bool { select { case simRecv1_0, simOK1_0 = <-simCh1_0: return true; default: return false } },
 //			func() bool { select { case simCh1_1 <- simVal1_1: return true; default: return false } }) {
 //		case 0:
@@ -40,9 +40,9 @@ import (
 //		}
 //	}
 //
-// simrt.Select tries the cases in an order derived from the run's seed and, when none is
-// ready and there is no default, parks the goroutine at "<site>:blocked" and polls again
-// when the scheduler releases it. `break` inside a body leaves the switch exactly as it
+// simrt.Select tries the cases in an order derived from the run's seed (so the choice among
+// several READY cases is the simulator's) and, when none is ready and there is no default,
+// blocks in a real select over the same cases, as the original would. `break` inside a body leaves the switch exactly as it
 // left the select. Labelled selects, selects whose bodies contain labels, and selects that
 // contain another rewritten select are left alone and stay in `uncontrolled_sources`.
 func selectPass(rootDir string) {
@@ -175,7 +175,7 @@ func buildSelect(fset *token.FileSet, info *types.Info, src []byte, sel *ast.Sel
 	}
 	// the site string is the one of the yield simgen put before the statement, if any
 	site := fmt.Sprintf("select@%d", n)
-	var pre, tries, cases []string
+	var pre, tries, cases, blockCases []string
 	hasDefault := false
 	defaultBody := ""
 	idx := 0
@@ -206,6 +206,7 @@ func buildSelect(fset *token.FileSet, info *types.Info, src []byte, sel *ast.Sel
 				val = v
 			}
 			tries = append(tries, fmt.Sprintf("func() bool { select { case %s <- %s: return true; default: return false } }", ch, val))
+			blockCases = append(blockCases, fmt.Sprintf("case %s <- %s: return %d", ch, val, idx))
 			cases = append(cases, fmt.Sprintf("case %d:\n%s", idx, body))
 		case *ast.ExprStmt:
 			u, ok := ast.Unparen(comm.X).(*ast.UnaryExpr)
@@ -214,6 +215,7 @@ func buildSelect(fset *token.FileSet, info *types.Info, src []byte, sel *ast.Sel
 			}
 			pre = append(pre, fmt.Sprintf("%s := %s", ch, text(u.X)))
 			tries = append(tries, fmt.Sprintf("func() bool { select { case <-%s: return true; default: return false } }", ch))
+			blockCases = append(blockCases, fmt.Sprintf("case <-%s: return %d", ch, idx))
 			cases = append(cases, fmt.Sprintf("case %d:\n%s", idx, body))
 		case *ast.AssignStmt:
 			if len(comm.Rhs) != 1 {
@@ -242,9 +244,11 @@ func buildSelect(fset *token.FileSet, info *types.Info, src []byte, sel *ast.Sel
 			if len(comm.Lhs) == 2 {
 				pre = append(pre, fmt.Sprintf("%s := false", okv))
 				tries = append(tries, fmt.Sprintf("func() bool { select { case %s, %s = <-%s: return true; default: return false } }", recv, okv, ch))
+				blockCases = append(blockCases, fmt.Sprintf("case %s, %s = <-%s: return %d", recv, okv, ch, idx))
 				cases = append(cases, fmt.Sprintf("case %d:\n%s, %s %s %s, %s\n%s", idx, lhs[0], lhs[1], tok, recv, okv, body))
 			} else {
 				tries = append(tries, fmt.Sprintf("func() bool { select { case %s = <-%s: return true; default: return false } }", recv, ch))
+				blockCases = append(blockCases, fmt.Sprintf("case %s = <-%s: return %d", recv, ch, idx))
 				cases = append(cases, fmt.Sprintf("case %d:\n%s %s %s\n%s", idx, lhs[0], tok, recv, body))
 			}
 		default:
@@ -259,12 +263,22 @@ func buildSelect(fset *token.FileSet, info *types.Info, src []byte, sel *ast.Sel
 	for _, p := range pre {
 		b.WriteString(p + "\n")
 	}
-	fmt.Fprintf(&b, "switch simrt.Select(%q, %v,\n%s) {\n", fmt.Sprintf("%s:%d:select", relOr(pos.Filename), pos.Line), hasDefault, strings.Join(tries, ",\n"))
+	// when no case is ready (and there is no default) the goroutine blocks in a real select
+	// over the same channels, exactly as the original would: two selects must be able to
+	// rendezvous on an unbuffered channel, which non-blocking attempts alone never do
+	block := "nil"
+	if !hasDefault {
+		block = "func() int { select {\n" + strings.Join(blockCases, "\n") + "\n} }"
+	}
+	fmt.Fprintf(&b, "switch simrt.Select(%q, %s,\n%s) {\n", fmt.Sprintf("%s:%d:select", relOr(pos.Filename), pos.Line), block, strings.Join(tries, ",\n"))
 	for _, c := range cases {
 		b.WriteString(c + "\n")
 	}
 	if hasDefault {
 		b.WriteString("default:\n" + defaultBody + "\n")
+	} else {
+		// keeps the statement a terminating one when every case ends in a return
+		b.WriteString("default:\npanic(\"simrt: select without a chosen case\")\n")
 	}
 	b.WriteString("}\n}")
 	_ = site
